@@ -122,6 +122,35 @@ pub fn handle(op: &str, a: &[&str]) -> Option<String> {
             }
             format!("ok {}", s.len())
         }
+        // the BigInt text entry point on its own: a radix outside 2..=36 must be rejected HERE too (the bytes go to
+        // `from_utf8_unchecked`), and the text must be ASCII digits of the radix after an optional `-`
+        ("i.text", [r, sg, x]) => {
+            let radix: u32 = r.parse().ok()?;
+            let m = parse_u(x)?;
+            let sign = match *sg {
+                "-" => num_bigint::Sign::Minus,
+                "+" => num_bigint::Sign::Plus,
+                _ => return None,
+            };
+            let i = num_bigint::BigInt::from_biguint(sign, m);
+            let s = i.to_str_radix(radix);
+            let body = s.strip_prefix('-').unwrap_or(&s);
+            let ok = std::str::from_utf8(s.as_bytes()).is_ok()
+                && !body.is_empty()
+                && body.bytes().all(|c| {
+                    let d = match c {
+                        b'0'..=b'9' => (c - b'0') as u32,
+                        b'a'..=b'z' => (c - b'a') as u32 + 10,
+                        _ => 99,
+                    };
+                    d < radix
+                });
+            let f = format!("{}|{:x}|{:o}|{:b}|{:X}|{:?}", i, i, i, i, i, i);
+            if !ok || !f.is_ascii() {
+                return Some("panic internal:invalid-text".to_string());
+            }
+            format!("ok {}", s.len())
+        }
         #[cfg(feature = "rand")]
         ("gen_biguint", [n, seed]) => {
             use num_bigint::RandBigInt;
